@@ -796,6 +796,39 @@ class Req:
             cal = gf.dep_callees(d)
             return any(c.endswith("::capacity") for c in cal) and any("from_be_bytes" in c for c in cal) and any(r["op"] in ("Lt", "Le", "Gt", "Ge") for r in d["binops"])
         g = gf.find_guards(f, dep, pushes)
+        self.nspk_bounds = []
+        caps0 = {ia.type_cap((core.op_place(f.blocks[b]["term"]["args"][0]) or {}).get("ty", "")) for b in pushes}
+        cap0 = min(c for c in caps0 if c is not None) if caps0 and None not in caps0 else None
+        for gd in g:
+            # largest level count the capacity-form guard lets through (for C02's completeness clause)
+            t = f.blocks[gd.block]["term"]
+            dl = core.op_local(t.get("discr")) if t.get("discr") else None
+            ds = [d for d in f.defs_of(dl) if not f.blocks[d[0]]["cleanup"]] if dl is not None else []
+            if len(ds) != 1 or ds[0][1] == "term" or ds[0][2]["rv"]["k"] != "binop" or cap0 is None:
+                continue
+            rv = ds[0][2]["rv"]
+
+            def is_cap(o):
+                l = core.op_local(o)
+                if l is None:
+                    return False
+                return any(d[1] == "term" and (core.callee_path(d[2]) or "").endswith("::capacity") for d in f.defs_of(l))
+            sa, sb = is_cap(rv["a"]), is_cap(rv["b"])
+            if sa == sb:
+                continue
+            op = rv["op"] if sb else {"Lt": "Gt", "Le": "Ge", "Gt": "Lt", "Ge": "Le"}.get(rv["op"])
+            truth = set()
+            for v, tg in t["targets"]:
+                if tg in gd.pass_targets:
+                    truth.add(bool(v))
+            if t.get("otherwise") in gd.pass_targets:
+                listed = {v for v, _ in t["targets"]}
+                truth.add(True if listed == {0} else (False if listed == {1} else None))
+            if len(truth) != 1 or None in truth:
+                continue
+            bound = {("Gt", False): cap0, ("Ge", False): cap0 - 1, ("Le", True): cap0, ("Lt", True): cap0 - 1}.get((op, truth.pop()))
+            if bound is not None:
+                self.nspk_bounds.append((bound, cap0))
         if not g and pushes:
             # the same test written against a constant that does not exceed the container's capacity
             caps = {ia.type_cap((core.op_place(f.blocks[b]["term"]["args"][0]) or {}).get("ty", "")) for b in pushes}
@@ -836,6 +869,7 @@ class Req:
                 bound = {("Gt", False): c, ("Ge", False): c - 1, ("Le", True): c, ("Lt", True): c - 1}.get((op, tv))
                 if bound is not None and bound <= cap:
                     g = [gd]
+                    self.nspk_bounds.append((bound, cap))
         return (len(g) >= 1 and bool(pushes), "level count compared with the container capacity before the push loop in %s: %d" % (f.path, len(g)))
 
     def key_parser(self):
